@@ -37,6 +37,9 @@ def unhex(h):
     return b'' if h == '-' else bytes.fromhex(h)
 
 
+OUT_OPS = ('parse', 'str', 'rt', 'vdump', 'ent', 'parse2', 'pinto', 'rtinto', 'sparse')
+
+
 # ---- document generator -----------------------------------------------------------------------
 class Gen:
     def __init__(self, rng, comments=True, ctext=False, ws=True, maxdepth=4):
@@ -312,6 +315,20 @@ class C16(Check):
     # -- oracle -------------------------------------------------------------------------------
     def judge(self, cases, impl_obs, spec_obs):
         fails = Check.judge(self, cases, impl_obs, spec_obs)
+        # one report per kind of failure of the reuse ops: a constant prefix of >= 80 characters, the variable part behind it
+        WHY = {'parse2': 'parse2: one Parser object used for two texts (flag 1: also one target Element) does not answer like a fresh Parser with a fresh Element '
+                         '(first field 1 = same answers; then the two answers): ',
+               'pinto': 'pinto: parse into an Element that already holds a name, attributes or content does not answer like parse into a fresh Element '
+                        '(first field 1 = same answer; then the answer): ',
+               'rtinto': 'rtinto: toString then parse into an Element that already holds the tree does not give back the same names, attributes, text and nesting: '}
+        for n, (i, k, reason) in enumerate(fails):
+            outs = [l for l in cases[i] if l.split(' ')[0] in OUT_OPS]
+            kind = outs[k].split(' ')[0] if k < len(outs) else ''
+            if kind in WHY:
+                fails[n] = (i, k, WHY[kind] + reason)
+            elif kind:
+                fails[n] = (i, k, ('%s: the answer of the implementation is not the one the specification expects for this operation: ' % kind).ljust(84) + reason)
+        fails.sort(key=lambda f: sum(len(l) for l in cases[f[0]]))
         bad = {i for (i, _, _) in fails}
         for i, (c, o) in enumerate(zip(cases, impl_obs)):
             if i in bad:
@@ -321,31 +338,54 @@ class C16(Check):
             if k is not None:
                 fails.append((i, k, 'implementation ends with `%s` (a parse/serialise/handle operation must terminate without a sanitizer report)' % o[k]))
                 continue
-            # error positions lie inside the text
-            outs = [l for l in c if l.split(' ')[0] in ('parse', 'str', 'rt', 'vdump', 'ent')]
+            # error positions lie inside the text (every entry point; for a reused Parser: inside the text of that call)
+            outs = [l for l in c if l.split(' ')[0] in OUT_OPS]
             last_str = None
             for k, (opl, line) in enumerate(zip(outs, o)):
                 t = line.split(' ')
-                if opl.startswith('str') and t[0] == 'str':
+                a = opl.split(' ')
+                if a[0] == 'str' and t[0] == 'str':
                     last_str = unhex(t[1])
-                text = None
-                if opl.startswith('parse ') and t[0] == 'err':
-                    text, l_, c_ = unhex(opl.split(' ')[1]), int(t[1]), int(t[2])
-                elif opl == 'rt' and len(t) > 1 and t[1] == 'err' and last_str is not None:
-                    text, l_, c_ = last_str, int(t[2]), int(t[3])
-                if text is not None:
+                found = []        # (text, line, column)
+                if a[0] == 'parse' and t[0] == 'err':
+                    found.append((unhex(a[1]), t[1], t[2]))
+                elif a[0] in ('rt', 'rtinto') and len(t) > 1 and t[1] == 'err' and last_str is not None:
+                    found.append((last_str, t[2], t[3]))
+                elif a[0] == 'parse2':
+                    secs = line.split(' | ')
+                    for text, sec in zip(a[2:4], secs[1:3]):
+                        u = sec.split(' ')
+                        if u[0] == 'err':
+                            found.append((unhex(text), u[1], u[2]))
+                elif a[0] == 'pinto':
+                    secs = line.split(' | ')
+                    u = secs[1].split(' ') if len(secs) > 1 else []
+                    if u and u[0] == 'err':
+                        found.append((unhex(a[1]), u[1], u[2]))
+                elif a[0] == 'sparse' and t[0] == 'serr':
+                    m = re.match(r'Syntax error at line (-?\d+), column (-?\d+): ', unhex(t[1]).decode('latin-1'))
+                    found.append((unhex(a[2]), m.group(1), m.group(2)) if m else (unhex(a[2]), '0', '0'))
+                hit = False
+                for text, l_, c_ in found:
                     cut = text.find(b'\0')
                     if cut >= 0:
                         text = text[:cut]
-                    if (l_, c_) not in positions(text):
-                        fails.append((i, k, 'error position line %d column %d is not the position of any offset of the text' % (l_, c_)))
+                    if (int(l_), int(c_)) not in positions(text):
+                        fails.append((i, k, '%s: error position line %s column %s is not the position of any offset of the text' % (a[0], l_, c_)))
+                        hit = True
                         break
+                if hit:
+                    break
         return fails
 
     def nontrivial(self, case, obs):
         kinds = {l.split(' ')[0] for l in case}
         if 'ent' in kinds:
             return any(x.startswith('ent ') and not x.startswith('ent err') for x in obs)
+        if kinds & {'parse2', 'pinto', 'sparse'}:
+            return any(len(l) >= 24 for l in case)
+        if 'rtinto' in kinds:
+            return sum(1 for l in case if l.split(' ')[0] in ('open', 'attr', 'text')) >= 2
         if 'parse' in kinds:
             big = any(l.startswith('parse ') and len(l) >= 6 + 2 * 8 for l in case)
             return any(x.startswith('ok') for x in obs) or (big and any(x.startswith('err') and not x.startswith('err 1 1 ') for x in obs))
@@ -482,6 +522,54 @@ class C16(Check):
             tail = rng.choice([b'', b'>', b'</a>', b'-->', b'"', g.document()])
             cases.append(['parse ' + H(d[:k]), 'parse ' + H(d[:k] + b'\0' + tail)])
         out.append(Stream('embedded_nul', cases, note='a document cut at a random offset, and the same bytes followed by NUL + more text: same result'))
+        out += self.streams_reuse(th, rng)
+        return out
+
+    def streams_reuse(self, th, rng):
+        """one Parser object for two texts, a target Element that already holds something, the static wrappers"""
+        out = []
+        bad = [b'x', b'\n\n\n<a', b'<a>\r\n\r\n</b>', b'<a k="v\n">', b'\n\n<a k=v/>', b'<a>\n\n\nt', b'<?x\n\n', b'<!--\n\n\n', b'', b'\n', b'<a>\n<b>\n</a>', b'<a\n\n\n',
+               b'<a></a', b'\r\r\r<', b'<a>x<!--c\n\n', b'<a k="1" k2=\'2\'>\n<b/>\n</a >x</a>']
+        good = [b'<a/>', b'<a></a>', b'<a k="v"/>', b'<a>t</a>', b'<a k="v" l="w">t<b/>u</a>', b'\n\n<a>\n<b/>\n</a>\n', b'<?xml version="1.0"?>\n<r><x/><x/></r>',
+                b'<!--c--><a k="1"/>', b'<a><a><a/></a></a>', b'<b k="2" k="3">&lt;</b>']
+        def text():
+            r = rng.random()
+            if r < 0.3:
+                return rng.choice(bad)
+            if r < 0.5:
+                return rng.choice(good)
+            g = Gen(rng, comments=rng.random() < 0.5, maxdepth=2)
+            d = g.document()
+            return d if r < 0.8 else mutate(rng, d)
+        cases = []
+        for a in bad + good[:6]:
+            for b in bad[:9] + good[:6]:
+                cases.append(['parse2 0 %s %s' % (H(a), H(b))])
+                cases.append(['parse2 1 %s %s' % (H(a), H(b))])
+        for _ in range(3000 if th else 500):
+            cases.append(['parse2 %d %s %s' % (rng.randrange(2), H(text()), H(text()))])
+        out.append(Stream('parser_reuse', cases, note='one Xml::Parser for two texts (all pairs of a table of failing / succeeding texts with line breaks, random pairs); flag 1: also one '
+                                                      'target Element; both answers compared with a fresh Parser + Element, error positions judged against their own text'))
+        cases = []
+        targets = [[], ['open 7a'], ['open 7a', 'attr 6b 76'], ['open 7a', 'text 74'], ['open 7a', 'attr 6b 76', 'attr 6c 77', 'open 79', 'close', 'text 74'],
+                   ['open 7a', 'open 79', 'attr 6b 76', 'text 75', 'close']]
+        for tg in targets:
+            for d in good + bad[:5]:
+                cases.append(tg + ['pinto ' + H(d)])
+            if tg:
+                cases.append(tg + ['str', 'rtinto'])
+        for _ in range(2500 if th else 400):
+            cases.append(tree_ops(rng, True, maxdepth=2) + ['pinto ' + H(text())])
+        for _ in range(2500 if th else 400):
+            cases.append(tree_ops(rng, rng.random() < 0.85, maxdepth=rng.choice([1, 2, 3])) + ['str', 'rtinto'])
+        out.append(Stream('target_reuse', cases, note='parse / toString-then-parse into an Element that already holds a name, attributes and content'))
+        cases = []
+        for d in bad + good:
+            for m in 'cs':
+                cases.append(['sparse %s %s' % (m, H(d))])
+        for _ in range(2000 if th else 400):
+            cases.append(['sparse %s %s' % (rng.choice('cs'), H(text()))])
+        out.append(Stream('entry_points', cases, note='static Xml::parse(const char*) and Xml::parse(const String&), failure text from Error::getErrorString()'))
         return out
 
 
